@@ -129,6 +129,7 @@ Definition g_eop (s : sx) : eop :=
   else if k =? "redecode" then ERedecode (gnat (nthx 1 l))
   else if k =? "copyinfo" then ECopyInfo
   else if k =? "reopen" then EReopen
+  else if k =? "mutate" then EMutate (gnat (nthx 1 l))
   else ERead (gnat (nthx 1 l)).
 Definition sx_eans (a : eans) : sx :=
   match a with
